@@ -19,6 +19,12 @@ UNICODE_ODDITIES = ["e\u0301", "\u212b", "\u2126", "\u1100\u1161", "\ufb01", "\u
                     "\u00ad", "\u0130", "\u00df", "\u01c5", "\U0001d11e", "\U0001f3b8", "\u0303x",
                     "\u1e9e", "\u03a9\u0301"]
 
+# Strings that mean something to OTHER layers (markup, format strings, escapes, regex, numbers): a payload
+# is carried verbatim, whatever it looks like.
+MARKUP_ODDITIES = ["<i>", "</i>", "<color=#ff0000>", "<", ">", "<>", "1 < 2 > 1", "&amp;", "&lt;", "%s", "%d%%", "{0}",
+                   "{}", "\\n", "\\t", "\\", "$1", "(.*)", "[a-z]+", "^$", "\\d", "../", "a/b", "C:\\x", "NULL", "None",
+                   "true", "0x1F", "1e5", "+5", "-0", "#", ";", "//", "'", "`", "|", "*", "?", "!", "~", "@"]
+
 # ------------------------------------------------------------------------------------------------
 # tempo maps
 # ------------------------------------------------------------------------------------------------
@@ -212,7 +218,9 @@ word_alphabet = st.characters(
     blacklist_categories=("Cc", "Cs", "Zs", "Zl", "Zp"))
 words = st.one_of(st.sampled_from(["solo", "soloend", "ENABLE_CHART_DYNAMICS", "x", "a=b", '"q"']),
                   st.text(alphabet=word_alphabet, min_size=1, max_size=12),
-                  st.lists(st.sampled_from(UNICODE_ODDITIES + ["a", "Z", "_"]), min_size=1, max_size=3).map("".join))
+                  st.lists(st.sampled_from(UNICODE_ODDITIES + ["a", "Z", "_"]), min_size=1, max_size=3).map("".join),
+                  st.lists(st.sampled_from([m for m in MARKUP_ODDITIES if " " not in m] + ["a", "x"]), min_size=1,
+                           max_size=3).map("".join))
 
 
 def merge_track_items(notes, phrases, tevents, sp_first: bool = False) -> list[list]:
@@ -271,6 +279,8 @@ global_texts = st.one_of(
     plain_text.map(lambda s: "lyric " + s),
     plain_text.map(lambda s: "section " + s),
     st.lists(st.sampled_from(UNICODE_ODDITIES + ["lyric ", "section ", "a", " "]), min_size=1,
+             max_size=4).map("".join),
+    st.lists(st.sampled_from(MARKUP_ODDITIES + ["lyric ", "section ", "Oh", " "]), min_size=1,
              max_size=4).map("".join),
 )
 
